@@ -459,4 +459,28 @@ example :
       [.setMax 2, .put .last 1 10, .put .last 2 20, .put .forceFirst 3 30, .add .last 3 5, .entries]).2
       = [.unit, .none, .none, .none, .val 30, .ents [(3, 35), (1, 10)]] := by decide
 
+/-- SetMax below the current size, then an insertion: `over_bound_insert`'s hypotheses hold and 5 entries become 2 -/
+example :
+    let d : Desc Int Int := { comb := fun a b => a + b, veq := fun a b => a == b }
+    let s : S Int Int := { ents := [(1, 10), (2, 20), (3, 30), (4, 40), (5, 50)], max := 2 }
+    AL.get s.ents 9 = none ∧ 0 < s.max ∧ s.max ≤ s.ents.length ∧
+    (S.put d s .last 9 90).1.ents = [(5, 50), (9, 90)] ∧ (S.put d s .forceFirst 9 90).1.ents = [(9, 90), (1, 10)] := by
+  decide
+
+/-- the enumerator object drained on a concrete map (constant hash: one chain) -/
+example :
+    let d : Desc Int Int := { comb := fun a b => a + b, veq := fun a b => a == b }
+    let m := (LMap.run (fun _ : Int => 7) (fun c => c / 2) d (LMap.new (fun c => c / 2) 1)
+      [.put .last 1 10, .put .forceFirst 2 20, .put .last 3 30]).1
+    LEnum.drain m.count m.openEnum = [2, 1, 3] ∧ m.enumValues (fun _ => 7) [2, 1, 3] = [20, 10, 30] := by
+  decide
+
+/-- `contains_after_put_iff` on both sides: a blind key, a refused absent key, a regular key -/
+example :
+    let d : Desc String Unit := { comb := fun _ _ => (), veq := fun _ _ => true, blind := fun k => k == "b", refuse := fun k => k == "r" }
+    (S.step d (S.put d {} .last "b" ()).1 (.containsKey "b")).2 = .bool false ∧
+    (S.step d (S.put d {} .last "r" ()).1 (.containsKey "r")).2 = .bool false ∧
+    (S.step d (S.put d {} .last "x" ()).1 (.containsKey "x")).2 = .bool true := by
+  decide
+
 end C09
